@@ -12,6 +12,12 @@ from harness import cgen, trace
 from harness.terms import jkey
 
 CLAUSES = {
+    "C01": {"roundtrip"},
+    "C02": {"wire", "encode-raises", "not-basic"},
+    "C03": {"decode", "decode-accepts", "decode-rejects"},
+    "C11": {"wire", "encode-raises", "decode", "decode-accepts", "decode-rejects"},
+    "C15": {"wire", "encode-raises", "decode", "decode-accepts", "decode-rejects"},
+    "C16": {"wire", "encode-raises", "decode", "decode-accepts", "decode-rejects", "build"},
     "C05": {"error-kind", "error-detail", "decode-accepts", "decode-rejects", "input-mutated"},
     "C07": {"decode", "decode-accepts", "decode-rejects", "error-kind", "error-detail"},
     "C08": {"wire", "encode-raises"},
@@ -46,6 +52,8 @@ def _record_family(args):
                 n += 1
                 if res[0] == "ok" and not c:
                     wires.append(res[1])
+                    back, _u = subj.decode(res[1])
+                    events.append(["Round", f"k{gid}.r{n}", T, v, back, True, c])
         n = 0
         dcalls = [c for c in calls if all(o[0] == "dialect" for o in c)] or [[]]
         for w in wires[:2]:
@@ -55,6 +63,46 @@ def _record_family(args):
                 res, unchanged = subj.decode(j, **kw)
                 events.append(["Decode", f"k{gid}.d{n}", T, j, res, unchanged, c])
                 n += 1
+        # ---- codec entry points: the same (already compiled) classes inside shapes, with and without a default_dialect
+        from harness.real import BasicDecoder, BasicEncoder, abstract_exception
+        from harness.terms import abstract_value, concretize_type, concretize_value
+        import copy as _copy
+        n = 0
+        # (the bare class and ONE enclosing shape: judging is the cost, and the two enclosing shapes take the same code path)
+        for shape in (T, g.r.choice([["list", T], ["dict", ["str"], T]])):
+            ann = concretize_type(shape, subj.reg)
+            for dd in ([], g.dialect("DD1")):
+                c = [["default_dialect", dd]] if dd else []
+                kw = {"default_dialect": subj.dialect_for(dd)} if dd else {}
+                try:
+                    enc, dec = BasicEncoder(ann, **kw), BasicDecoder(ann, **kw)
+                except Exception as e:  # noqa: BLE001
+                    events.append(["BuildFailed", f"k{gid}.c{n}", shape, ["exc", type(e).__name__, str(e)[:200]]])
+                    continue
+                for v0 in (values if shape is T else values[:1]):
+                    v = v0 if shape is T else (["list", [v0]] if shape[0] == "list" else ["dict", [[["str", "k"], v0]]])
+                    x = concretize_value(v, subj.reg)
+                    try:
+                        w = enc.encode(x)
+                        res = ["ok", abstract_value(w, subj.reg)]
+                    except Exception as e:  # noqa: BLE001
+                        res = abstract_exception(e, subj.reg)
+                    events.append(["Encode", f"k{gid}.ce{n}", shape, v, res, True, c])
+                    if res[0] == "ok":
+                        try:
+                            back = ["ok", abstract_value(dec.decode(_copy.deepcopy(w)), subj.reg)]
+                        except Exception as e:  # noqa: BLE001
+                            back = abstract_exception(e, subj.reg)
+                        events.append(["Round", f"k{gid}.cr{n}", shape, v, back, True, c])
+                        res2, unchanged = ["err", ["x"]], True
+                        d = _copy.deepcopy(w)
+                        before = _copy.deepcopy(d)
+                        try:
+                            res2 = ["ok", abstract_value(dec.decode(d), subj.reg)]
+                        except Exception as e:  # noqa: BLE001
+                            res2 = abstract_exception(e, subj.reg)
+                        events.append(["Decode", f"k{gid}.cd{n}", shape, res[1], res2, d == before, c])
+                    n += 1
     finally:
         subj.close()
     return events
@@ -71,8 +119,9 @@ def record(seed, n, procs=16):
 
 def run_into(rep, prop, tier, seed):
     wanted = CLAUSES[prop]
-    n = 600 if tier == "quick" else 8000
-    events = record(seed, n)
+    n = 200 if tier == "quick" else 6000
+    # every property judges its own slice of the family space: a sweep over the properties covers twelve times the families of one check
+    events = record(seed + 7919 * sorted(CLAUSES).index(prop), n)
     judged = [e for e in events if e[0] != "BuildFailed"]
     bad, results = trace.validate(judged, shards=16)
     for r_ in results:
@@ -81,7 +130,7 @@ def run_into(rep, prop, tier, seed):
     rep.cov["traces_validated_against_impl"] += len(judged)
     byid = {e[1]: e for e in events}
     for e in judged:
-        rep.nontrivial(hashlib.sha1(jkey([e[2], e[3], e[6]]).encode()).hexdigest())
+        rep.nontrivial(hashlib.sha1(jkey([e[0], e[2], e[3], e[6]]).encode()).hexdigest())
     for e in events:
         if e[0] == "BuildFailed":
             rep.violation("build", {"T": e[2], "actual": e[3], "channel": "V", "family": "configured"})
@@ -92,7 +141,7 @@ def run_into(rep, prop, tier, seed):
                 rep.unmodelled += 1
             elif c in wanted:
                 rep.violation(c, {"T": e[2], "input": e[3], "expected": exp, "actual": e[4], "call": e[6], "channel": "V", "event": e[0],
-                                  "family": "configured"})
+                                  "family": "configured", "entry": "codec" if ".c" in e[1] else "mixin"})
     if judged:
         rep.sample({"channel": "V", "family": "configured", "event": judged[len(judged) // 2]})
     return len(judged)
